@@ -83,10 +83,38 @@ BOOKKEEP = [
                 && (cp.cost is Some <==> syntax_amount.cost is Some) && (cp.lot is Some <==> syntax_amount.lot.price is Some),
             posting_amount_of(syntax_amount.amount.value.eval_result(*old(ctx))) is Err ==> r is Err,
 """),
-    U("ComputedPosting::calculate_converted_amount", BK, [r"impl<'ctx> ComputedPosting<'ctx>", r"fn calculate_converted_amount\b"], fn="calculate_converted_amount", wrap=IMPL_CP,
-      rewrites=[RET()], opaque=True,
+    # the same body, VERIFIED (renamed copy): everything the assumed contract above says except that the result is a FUNCTION of
+    # (written amount, context) - `computed_of` is only a name for "what compute_from_syntax returns", needed to state process_posting's contract
+    U("ComputedPosting::compute_from_syntax(body)", BK, [r"impl<'ctx> ComputedPosting<'ctx>", r"fn compute_from_syntax\b"], fn="compute_from_syntax__body", wrap=IMPL_CP,
+      rewrites=[RET(), ("R0-rename", "fn compute_from_syntax(", "fn compute_from_syntax__body(", 1), ("R34b",),
+                ("R20-into-to-from", "re:let amount: PostingAmount = syntax_amount\\s*\\.amount\\s*\\.as_undecorated\\(\\)\\s*\\.eval_mut\\(ctx\\)\\?\\s*\\.try_into\\(\\)\\?;",
+                 "let amount: PostingAmount = PostingAmount::try_from(syntax_amount.amount.as_undecorated().eval_mut(ctx)?)?;", 1)],
       contract="""
-        ensures self.wf() ==> r is Ok,   // (ASSUMED, L1: closure with `?` + transpose; informational field only)
+        ensures
+            ctx_extends(*old(ctx), *final(ctx)),   // @compute_from_syntax.only_extends_the_stores
+            r matches Ok(cp) ==> cp.wf() && Ok::<PostingAmount, EvalError>(cp.amount) == posting_amount_of(syntax_amount.amount.value.eval_result(*old(ctx)))
+                && (cp.cost is Some <==> syntax_amount.cost is Some) && (cp.lot is Some <==> syntax_amount.lot.price is Some),   // @compute_from_syntax.amount_is_the_written_one_cost_and_lot_wellformed
+            posting_amount_of(syntax_amount.amount.value.eval_result(*old(ctx))) is Err ==> r is Err,   // @compute_from_syntax.ill_typed_amount_rejected
+"""),
+    U("posting_cost_exchange", BK, [r"fn posting_cost_exchange<'a, 'ctx>"], fn="posting_cost_exchange", rewrites=[RET(), ("R9-stub-path", "syntax::tracked::Tracked<syntax::Exchange>", "Tracked<syntax::Exchange>", 1)],
+      contract="""
+        ensures r is Some <==> posting_amount.cost is Some, r matches Some(x) ==> *x == posting_amount.cost->Some_0,   // @posting_cost_exchange.is_the_written_cost
+"""),
+    U("posting_lot_exchange", BK, [r"fn posting_lot_exchange<'a, 'ctx>"], fn="posting_lot_exchange", rewrites=[RET(), ("R9-stub-path", "syntax::tracked::Tracked<syntax::Exchange>", "Tracked<syntax::Exchange>", 1)],
+      contract="""
+        ensures r is Some <==> posting_amount.lot.price is Some, r matches Some(x) ==> *x == posting_amount.lot.price->Some_0,   // @posting_lot_exchange.is_the_written_lot_price
+"""),
+    U("ComputedPosting::calculate_converted_amount", BK, [r"impl<'ctx> ComputedPosting<'ctx>", r"fn calculate_converted_amount\b"], fn="calculate_converted_amount", wrap=IMPL_CP,
+      rewrites=[RET(),
+                # R34c: `X.map(|x| Ok(E(..?..))).transpose()` -> `match X { Some(x) => Ok(Some(E(..?..))), None => Ok(None) }` (std definitions of Option::map /
+                # Option::transpose; the `?` inside the closure and the `?` in the match arm both end the function with the converted error)
+                ("R34c-map-ok-transpose", "re:self\\.cost\\s*\\.as_ref\\(\\)\\s*\\.or\\(self\\.lot\\.as_ref\\(\\)\\)\\s*\\.map\\(\\|x\\| Ok\\(x\\.exchange\\(self\\.amount\\.try_into\\(\\)\\?\\)\\)\\)\\s*\\.transpose\\(\\)",
+                 "match self.cost.as_ref().or(self.lot.as_ref()) { Some(x) => Ok(Some(x.exchange(SingleAmount::try_from(self.amount)?))), None => Ok(None) }", 1)],
+      contract="""
+        ensures
+            self.wf() ==> r is Ok,   // @calculate_converted_amount.wellformed_posting_has_one
+            // the cost, else the lot price, applied to the posting's amount
+            r matches Ok(v) ==> (v is Some <==> (self.cost is Some || self.lot is Some)),   // @calculate_converted_amount.present_iff_priced
 """),
     U("ComputedPosting::calculate_balance_amount", BK, [r"impl<'ctx> ComputedPosting<'ctx>", r"fn calculate_balance_amount\b"], fn="calculate_balance_amount", wrap=IMPL_CP,
       rewrites=[RET(), ("R20-into-to-from", "Ok(x.exchange(self.amount.try_into()?).into())", "Ok(PostingAmount::from(x.exchange(self.amount.try_into()?)))", 1)],
